@@ -28,10 +28,10 @@ def cells(tier, seed):
     return c01.cells(tier, seed + 2000)
 
 
-def build_inv(cell):
+def build_inv(cell, dtype=None):
     import torch
     import pytorch_wavelets as pw
-    with util.default_dtype(torch.float64):
+    with util.default_dtype(dtype or torch.float64):
         if cell['dim'] == 1:
             return pw.DWT1DInverse(wave=c01.wave_arg(cell, True), mode=c01.lib_mode(cell))
         return pw.DWTInverse(wave=c01.wave_arg(cell, True), mode=c01.lib_mode(cell))
@@ -90,6 +90,42 @@ def run_cell(cell, seed):
             out.append(res(INCONCLUSIVE, case, 'M-RT', 'pywt round trip raised'))
             continue
         tol = 1e-10 * G * max(float(np.abs(xn).max()), 1e-300) + 10 * e
+        okc, detail, ratio = util.compare('inverse(forward(x))', y[sl], xn, tol)
+        out.append(res(HELD, case, 'M-RT', ratio=ratio, pywt_err=e) if okc else
+                   res(VIOLATED, case, 'M-RT', detail, ratio=ratio, kf_key=kf))
+    if cell.get('noimp') or int(np.prod(sp)) > 20000:
+        return out
+    # the same pair after the usual nn.Module precision conversion (built in float32 + .double(), built in
+    # float64 + .float()): still the same wavelet.  Taps rounded to float32 at construction stay rounded, so
+    # "up to rounding" is float32 tap precision here (as in C04).
+    import torch
+    for bdt, conv, dt, eps in ((torch.float32, 'double', torch.float64, 1e-6), (torch.float64, 'float', torch.float32, 2e-4)):
+        case = {'cell': cell, 'input': 'randn', 'modules': 'built %s, converted with .%s()' % (str(bdt).replace('torch.', ''), conv)}
+        try:
+            f2, i2 = getattr(c01.build(cell, bdt), conv)(), getattr(build_inv(cell, bdt), conv)()
+        except Exception as e_:
+            out.append(res(VIOLATED, case, 'M-RT', 'conversion raised %r' % (e_,)))
+            continue
+        x = util.make_input('randn', [cell['N'], cell['C']] + sp, seed + 5, dt)
+        ok, pyr = util.call_lib(f2, x)
+        if not ok:
+            out.append(res(core.SKIPPED, case, 'M-RT', 'forward raised (outside C02)'))
+            continue
+        ok, y = util.call_lib(i2, pyr)
+        if not ok:
+            out.append(res(VIOLATED, case, 'M-RT', 'inverse raised %r on the forward output' % (y,), kf_key=kf))
+            continue
+        want, got = list(x.shape), list(y.shape)
+        if not (len(got) == len(want) and got[:2] == want[:2] and all(
+                g == w or (w % 2 == 1 and g == w + 1) for g, w in zip(got[2:], want[2:]))) or y.dtype != dt:
+            out.append(res(VIOLATED, case, 'M-SHAPE', 'reconstruction %s %s for input %s %s' % (got, y.dtype, want, dt), kf_key=kf))
+            continue
+        sl = (slice(None), slice(None)) + tuple(slice(0, w) for w in want[2:])
+        xn = util.np64(x)
+        e = pywt_rt_error(cell, xn)
+        if e is None:
+            continue
+        tol = eps * G * max(float(np.abs(xn).max()), 1e-300) + 10 * e
         okc, detail, ratio = util.compare('inverse(forward(x))', y[sl], xn, tol)
         out.append(res(HELD, case, 'M-RT', ratio=ratio, pywt_err=e) if okc else
                    res(VIOLATED, case, 'M-RT', detail, ratio=ratio, kf_key=kf))
